@@ -189,7 +189,9 @@ func (g *gen) width() int {
 }
 
 func (g *gen) charset() string {
-	switch g.r.Intn(8) {
+	switch g.r.Intn(9) {
+	case 8:
+		return []string{"a\u0600", "\u0600", "ab\u06dd", "+|\u0600-"}[g.r.Intn(4)]
 	case 0, 1, 2:
 		return ""
 	case 3:
@@ -724,6 +726,63 @@ func (g *gen) groupOptions(n int) {
 	}
 }
 
+// C17: XOpts(args, o) vs WithOptions(o).X(args) vs X with unset fields replaced by explicit defaults
+func (g *gen) groupOptions2(n int) {
+	for i := 0; i < n; i++ {
+		mode := g.modeFor()
+		o0, _, _ := g.opts(mode)
+		o, ls, ps := g.opts(mode)
+		t := g.text(mode, ls, ps)
+		// mixture: every unset string field independently replaced by its explicit default
+		m := o
+		if m.LineSeparator == "" && g.chance(0.5) {
+			m.LineSeparator = rosed.DefaultLineSeparator
+		}
+		if m.ParagraphSeparator == "" && g.chance(0.5) {
+			m.ParagraphSeparator = rosed.DefaultParagraphSeparator
+		}
+		if m.IndentStr == "" && g.chance(0.5) {
+			m.IndentStr = rosed.DefaultIndentString
+		}
+		if m.TableCharSet == "" && g.chance(0.5) {
+			m.TableCharSet = rosed.DefaultTableCharSet
+		}
+		var op string
+		switch g.r.Intn(10) {
+		case 0:
+			op = fmt.Sprintf("wrap,%%d,%d,%%s", g.width())
+		case 1:
+			op = fmt.Sprintf("justify,%%d,%d,%%s", g.width())
+		case 2:
+			op = fmt.Sprintf("align,%%d,%d,%d,%%s", 1+g.r.Intn(3), g.width())
+		case 3:
+			op = "collapse,%d,%s"
+		case 4:
+			op = fmt.Sprintf("indent,%%d,%d,%%s", g.r.Intn(3))
+		case 5:
+			op = fmt.Sprintf("apply,%%d,%d,%%s", g.r.Intn(7))
+		case 6:
+			op = fmt.Sprintf("applypara,%%d,%d,%%s", g.r.Intn(6))
+		case 7:
+			op = fmt.Sprintf("twocol,%%d,%s,%s,%s,%d,%d,%s,%%s", encInt(g.pos(4)), encText(g.para(mode, ls, 2)), encText(g.para(mode, ls, 2)), g.r.Intn(4), g.width(), encPct(g.pct()))
+		case 8:
+			defs := [][2]string{{g.word(mode, 4), g.line(mode, 5)}, {g.word(mode, 4), g.line(mode, 5)}}
+			op = fmt.Sprintf("deftable,%%d,%s,%s,%d,%%s", encInt(g.pos(4)), encDefs(defs), g.width())
+		default:
+			data := [][]string{{g.word(mode, 3), g.word(mode, 3)}, {g.word(mode, 3), g.word(mode, 3)}}
+			op = fmt.Sprintf("table,%%d,%s,%s,%d,%%s", encInt(g.pos(4)), encTable(data), g.width())
+		}
+		st := []string{
+			g.editStep(t, o0),
+			fmt.Sprintf(op, 0, encOpts(o)),
+			fmt.Sprintf("withopts,0,%s", encOpts(o)),
+			fmt.Sprintf(op, 2, "="),
+			fmt.Sprintf(op, 0, encOpts(m)),
+		}
+		g.emit("prog", strings.Join(st, ";"))
+	}
+}
+
 // manip-level direct calls (finer tie of the internals)
 func (g *gen) groupManip(n int) {
 	for i := 0; i < n; i++ {
@@ -845,6 +904,8 @@ func cmdGen(group, tier string, seed int64) int {
 		g.groupTable(1500 * k)
 	case "A-options":
 		g.groupOptions(1000 * k)
+	case "A-options2":
+		g.groupOptions2(2500 * k)
 	case "A-manip":
 		g.groupManip(3000 * k)
 	case "POOL":
